@@ -169,9 +169,20 @@ def eval_interior(c, A, b, minimize, opts, orc):
         x = _finite_point(r.solution, n)
         if x is None:
             return [(f"{PI}/ensures:FEASIBLE=>residual<=0.01", f"FEASIBLE with a non-finite / malformed point x={r.solution}")], name
-        ex, wi, mn = _feas_excess(c, A, b, x)
-        if ex > Fraction(1, 100) + Fraction(1, 10**9) or mn < 0:
-            bad.append((f"{PI}/ensures:FEASIBLE=>residual<=0.01", f"x={r.solution}: worst row excess {float(ex):.4g} (row {wi}), min coordinate {float(mn):.3g}; the LP is {truth}"))
+        # Row excess judged exactly, up to the rounding that evaluating the row in double precision cannot avoid
+        # (standard dot-product bound (n+2)*2^-52*(sum|a_ij x_j| + |b_i|)): negligible (< 1e-12) for points of ordinary
+        # size, but a FEASIBLE answer on a diverging (unbounded) LP can have |x| ~ 1e250, where 0.01 absolute is below
+        # one ulp of the terms and the documented float residual is all that can be meant.
+        u = Fraction(n + 2, 2**52)
+        worst, wi = None, None
+        for i, row in enumerate(A):
+            e = sum((_fr(a) * v for a, v in zip(row, x)), Fraction(0)) - _fr(b[i])
+            allow = u * (sum((abs(_fr(a) * v) for a, v in zip(row, x)), Fraction(0)) + abs(_fr(b[i])))
+            if worst is None or e - allow > worst:
+                worst, wi = e - allow, i
+        mn = min(x)
+        if worst > Fraction(1, 100) + Fraction(1, 10**9) or mn < 0:
+            bad.append((f"{PI}/ensures:FEASIBLE=>residual<=0.01", f"x={r.solution}: worst row excess (beyond float rounding) {float(worst):.4g} (row {wi}), min coordinate {float(mn):.3g}; the LP is {truth}"))
     return bad, name
 
 
@@ -499,18 +510,18 @@ def run(ctx: Ctx):
 
     ex_all = [
         exh(1, 1, None, 1, 50),
-        exh(1, 2, None, 0.3 if q else 1, 200),
-        exh(2, 1, None, 0.3 if q else 1, 200),
-        exh(1, 3, 40000 if q else None, 0.04 if q else 1, 400),
-        exh(2, 2, 60000 if q else None, 0.05 if q else 1, 400),
+        exh(1, 2, None, 0.25 if q else 1, 200),
+        exh(2, 1, None, 0.25 if q else 1, 200),
+        exh(1, 3, 30000 if q else None, 0.05 if q else 1, 400),
+        exh(2, 2, 40000 if q else None, 0.06 if q else 1, 400),
     ]
     ctx.exhaustive = all(ex_all)
 
     # ---- seeded structured random space
-    R = 45000 if q else 400000
-    RI = 5000 if q else 45000
-    RB = 12000 if q else 60000
-    RIB = 3000 if q else 20000
+    R = 36000 if q else 400000
+    RI = 4000 if q else 45000
+    RB = 9000 if q else 60000
+    RIB = 2400 if q else 20000
     cases = []
     kinds = Counter()
     for k in range(R):
@@ -576,7 +587,9 @@ def run(ctx: Ctx):
         "tau = 1e-6*(1+max|data|) for solve_lp; tau' = 10*eps*(n+m+||x*||+||y*||)+1e-9 for solve_lp_interior OPTIMAL (DESIGN C03); "
         "FEASIBLE residual bound 0.01 (+1e-9 for the solver's own float evaluation of the residual)",
         "solve_lp answers with status MAX_ITER are excused by the statement (counted in solve_lp_MAX_ITER_excused_default_budget)",
-        "the returned floats are judged in exact rational arithmetic (Fraction of the float), so the checker adds no rounding of its own",
+        "the returned floats are judged in exact rational arithmetic (Fraction of the float), so the checker adds no rounding of its own; "
+        "only the FEASIBLE residual clause allows the unavoidable double-precision evaluation error (n+2)*2^-52*(sum|a_ij x_j|+|b_i|) per row, "
+        "which matters solely for diverging iterates of size ~1e150+ on unbounded LPs",
         "bounded: nothing is claimed beyond the enumerated / sampled inputs",
     ]
     ctx.trusted += [
